@@ -24,6 +24,8 @@ type Sorts struct {
 	structs      map[string]*types.Struct
 	Extra        map[string]*DT  // spec-level datatypes (sort decls)
 	inProgress   map[string]bool // struct sorts being declared: references back to them are opaque (Int)
+	hits         int             // back-references into recursive types met so far
+	fieldSorts   map[string][]string // struct sort -> field sorts as declared
 	recursiveHit bool
 }
 
@@ -106,10 +108,11 @@ func (s *Sorts) Sort(t types.Type) string {
 		return n
 	}
 	before := len(s.inProgress)
+	h0 := s.hits
 	n := s.sort(t)
-	if n == "Int" && s.recursiveHit && before > 0 {
-		// a back-reference inside a recursive type: do not cache, the same Go type gets its real sort elsewhere
-		s.recursiveHit = false
+	if s.hits != h0 && before > 0 {
+		// the result depends on a back-reference inside a recursive type (rendered as an opaque Int): do not cache,
+		// the same Go type gets its real sort when it is asked for outside the recursion
 		return n
 	}
 	s.byType[key] = n
@@ -136,6 +139,7 @@ func (s *Sorts) sort(t types.Type) string {
 			name := shortPkg(named.Obj().Pkg()) + "_" + sanitize(named.Obj().Name())
 			if s.inProgress[name] {
 				s.recursiveHit = true
+				s.hits++
 				return "Int"
 			}
 			if targs := named.TypeArgs(); targs != nil && targs.Len() > 0 {
@@ -172,8 +176,9 @@ func (s *Sorts) sort(t types.Type) string {
 		s.declStruct(name, u)
 		return name
 	case *types.Pointer:
+		h0 := s.hits
 		e := s.Sort(u.Elem())
-		if e == "Int" && s.recursiveHit {
+		if e == "Int" && s.hits != h0 {
 			return "Int"
 		}
 		n := "Opt_" + e
@@ -232,6 +237,10 @@ func (s *Sorts) declStruct(name string, st *types.Struct) {
 	}
 	s.inProgress[name] = true
 	defer delete(s.inProgress, name)
+	if s.fieldSorts == nil {
+		s.fieldSorts = map[string][]string{}
+	}
+	s.fieldSorts[name] = nil
 	s.structs[name] = st
 	var fields []string
 	for i := 0; i < st.NumFields(); i++ {
@@ -240,7 +249,9 @@ func (s *Sorts) declStruct(name string, st *types.Struct) {
 		if f.Name() == "_" {
 			fn = fmt.Sprintf("blank%d", i)
 		}
-		fields = append(fields, fmt.Sprintf("(%s_%s %s)", name, fn, s.Sort(f.Type())))
+		fsrt := s.Sort(f.Type())
+		s.fieldSorts[name] = append(s.fieldSorts[name], fsrt)
+		fields = append(fields, fmt.Sprintf("(%s_%s %s)", name, fn, fsrt))
 	}
 	if len(fields) == 0 {
 		s.decls = append(s.decls, fmt.Sprintf("(declare-datatypes ((%s 0)) (((mk_%s))))", name, name))
@@ -322,13 +333,35 @@ func (s *Sorts) zeroOfSort(srt string, t types.Type) string {
 				return "mk_" + srt
 			}
 			var fs []string
+			decl := s.fieldSorts[srt]
 			for i := 0; i < u.NumFields(); i++ {
+				if i < len(decl) && decl[i] != s.Sort(u.Field(i).Type()) {
+					// a field of a recursive type that was declared with an opaque sort (back-reference)
+					fs = append(fs, s.zeroBySort(decl[i]))
+					continue
+				}
 				fs = append(fs, s.Zero(u.Field(i).Type()))
 			}
 			return "(mk_" + srt + " " + strings.Join(fs, " ") + ")"
 		}
 	}
 	return "zero_" + srt
+}
+
+// zeroBySort builds a zero value from the sort name alone (opaque fields of recursive types).
+func (s *Sorts) zeroBySort(srt string) string {
+	switch {
+	case strings.HasPrefix(srt, "Slice_"):
+		e := strings.TrimPrefix(srt, "Slice_")
+		return s.NilSlice(e, s.zeroBySort(e))
+	case strings.HasPrefix(srt, "Map_"):
+		rest := strings.TrimPrefix(srt, "Map_")
+		if i := strings.Index(rest, "_"); i > 0 {
+			k, v := rest[:i], rest[i+1:]
+			return fmt.Sprintf("(mk_%s ((as const (Array %s Bool)) false) %s true)", srt, k, s.ConstArray(k, v, s.zeroBySort(v)))
+		}
+	}
+	return s.zeroOfSort(srt, nil)
 }
 
 func (s *Sorts) NilSlice(elemSort, elemZero string) string {
